@@ -1,3 +1,5 @@
+import struct
+
 from construct.core import ConstructError
 from construct.core import Subconstruct
 from construct.core import Switch
@@ -40,7 +42,9 @@ class FileAdapter(Subconstruct):
                 stream, 
                 **context
             )
-        except (RequestedInvalidSector, InvalidCharacter) as e:
+        except (RequestedInvalidSector, InvalidCharacter, struct.error) as e:
+            # struct.error: the compiled header parser ran out of data
+            # (the entry's size field is smaller than the header)
             raise ConstructError from e
 
         return file
